@@ -189,12 +189,15 @@ HUGE_MUTS = {"Signal": ["add_constant", "add_series", "add_signal", "remove_aver
                            "set_zero_residual_velocity:none", "set_zero_residual_velocity:tz", "set_zero_residual_velocity:tz_open",
                            "set_zero_residual_displacement", "szrdv:none", "szrdv:tz", "szrdv:tz_open", "correct_me"]}
 SWEEP_HUGE = [(cls, m, j) for cls in ("Signal", "AccSignal") for m in HUGE_MUTS[cls] for j in range(6)]
+# two objects loaded from one file (the file is written once), both read, then every mutator on each of them (c04u-2)
+SWEEP_FILE = [(how, "mut:" + m) for how, muts in (("load_signal:acc_sig", MUT_ACC), ("load_asig", MUT_ACC), ("load_signal:signal", MUT_SIG),
+                                                 ("load_sig", MUT_SIG)) for m in muts if m != "add_signal"]
 # the second-object route: B is built from (or reset to) the array that A's `.values` hands out, both are read, then every
 # mutator is applied to A and to B -- memory shared between the two shows as staleness of the other one
 SWEEP_SHARE = [(cls, route, "mut:" + m) for cls, muts in (("Signal", MUT_SIG), ("AccSignal", MUT_ACC)) for route in ("new", "reset")
                for m in muts]
 N_SWEEP = len(SWEEP_STATE) + len(SWEEP_K2) + len(SWEEP_K2_READS) + len(SWEEP_NI) + len(SWEEP_ABA) + len(SWEEP_COIN) + len(SWEEP_SHARE) + \
-    len(SWEEP_K1) + len(SWEEP_HUGE)
+    len(SWEEP_K1) + len(SWEEP_HUGE) + len(SWEEP_FILE)
 REPRESENTATIVE = {"fa": ["fa_spectrum", "fa_spectrum_abs", "fa_freqs", "fa_frequencies"], "smooth": ["smooth_fa_spectrum"],
                   "vd": ["velocity", "displacement"], "pga": ["pga"], "pgv": ["pgv"], "pgd": ["pgd"],
                   "resp": ["s_a", "s_v", "s_d"]}
@@ -303,18 +306,22 @@ class C04(Profile):
         elif index < len(SWEEP_STATE) + len(SWEEP_K2) + len(SWEEP_K2_READS) + len(SWEEP_NI) + len(SWEEP_ABA):
             cls, how, mk = SWEEP_ABA[index - len(SWEEP_STATE) - len(SWEEP_K2) - len(SWEEP_K2_READS) - len(SWEEP_NI)]
             cfg.update(run_class="sweep-state", sweep={"cls": cls, "state": [], "aba": {"how": how, "mk": mk}})
-        elif index < N_SWEEP - len(SWEEP_SHARE) - len(SWEEP_K1) - len(SWEEP_HUGE):
+        elif index < N_SWEEP - len(SWEEP_SHARE) - len(SWEEP_K1) - len(SWEEP_HUGE) - len(SWEEP_FILE):
             cls, n, c = SWEEP_COIN[index - len(SWEEP_STATE) - len(SWEEP_K2) - len(SWEEP_K2_READS) - len(SWEEP_NI) - len(SWEEP_ABA)]
             cfg.update(run_class="sweep-state", sweep={"cls": cls, "state": [], "coin": {"n": n, "c": c}})
-        elif index < N_SWEEP - len(SWEEP_K1) - len(SWEEP_HUGE):
-            cls, route, mk = SWEEP_SHARE[index - (N_SWEEP - len(SWEEP_SHARE) - len(SWEEP_K1) - len(SWEEP_HUGE))]
+        elif index < N_SWEEP - len(SWEEP_K1) - len(SWEEP_HUGE) - len(SWEEP_FILE):
+            cls, route, mk = SWEEP_SHARE[index - (N_SWEEP - len(SWEEP_SHARE) - len(SWEEP_K1) - len(SWEEP_HUGE) - len(SWEEP_FILE))]
             cfg.update(run_class="sweep-state", sweep={"cls": cls, "state": [], "share": {"route": route, "mk": mk}})
-        elif index < N_SWEEP - len(SWEEP_HUGE):
-            cls, b, which, i, dtp = SWEEP_K1[index - (N_SWEEP - len(SWEEP_K1) - len(SWEEP_HUGE))]
+        elif index < N_SWEEP - len(SWEEP_HUGE) - len(SWEEP_FILE):
+            cls, b, which, i, dtp = SWEEP_K1[index - (N_SWEEP - len(SWEEP_K1) - len(SWEEP_HUGE) - len(SWEEP_FILE))]
             cfg.update(run_class="sweep-state", faults_on=True, sweep={"cls": cls, "state": [], "k1": {"m": b, "which": which, "i": i, "nd": dtp}})
-        else:
-            cls, m, j = SWEEP_HUGE[index - (N_SWEEP - len(SWEEP_HUGE))]
+        elif index < N_SWEEP - len(SWEEP_FILE):
+            cls, m, j = SWEEP_HUGE[index - (N_SWEEP - len(SWEEP_HUGE) - len(SWEEP_FILE))]
             cfg.update(run_class="sweep-state", strict_fp=True, huge=True, max_steps=100, sweep={"cls": cls, "state": [], "huge": {"m": m}})
+        else:
+            how, mk = SWEEP_FILE[index - (N_SWEEP - len(SWEEP_FILE))]
+            cls = "AccSignal" if how in ("load_signal:acc_sig", "load_asig") else "Signal"
+            cfg.update(run_class="sweep-state", max_steps=60, sweep={"cls": cls, "state": [], "file": {"how": how, "mk": mk}})
         return cfg
 
     def new_world(self, config):
@@ -327,6 +334,9 @@ class C04(Profile):
         return w
 
     def close_world(self, world):
+        if getattr(world, "tmpdir", None):
+            import shutil
+            shutil.rmtree(world.tmpdir, ignore_errors=True)
         st = world.stats
         if world.hit_cell:
             st["nontrivial"] = 1
@@ -358,6 +368,23 @@ class C04(Profile):
     def _exec(self, world, op):
         eqsig = self.eqsig
         k = op["op"]
+        if k == "new" and op.get("via_file"):
+            # an object born from a file: another object is saved (or the file of an earlier step is used again) and the
+            # new party is what a loader returns -- two objects loaded from one file are two owners (c04u-2)
+            import os
+            import tempfile
+            vf = op["via_file"]
+            if getattr(world, "tmpdir", None) is None:
+                world.tmpdir = tempfile.mkdtemp(prefix="verif-c04-")
+            path = os.path.join(world.tmpdir, "x.txt")
+            if vf.get("save"):
+                eqsig.save_signal(path, world.objs[vf["save"]])
+            how = vf["how"].split(":")
+            obj = eqsig.load_signal(path, astype=how[1]) if how[0] == "load_signal" else getattr(eqsig, how[0])(path)
+            world.objs[op["p"]] = obj
+            world.lastread[op["p"]] = set()
+            world.warm[op["p"]] = set()
+            return None
         if k == "new":
             cls = getattr(eqsig, op["cls"])
             kw = {a: codec.dec(b) for a, b in op.get("kw", {}).items()}
@@ -476,6 +503,8 @@ class C04(Profile):
     def _exists(self, world, op):
         k = op["op"]
         if any(q not in world.objs for q in self._refs(op)):
+            return False
+        if op.get("via_file") and op["via_file"].get("save") and op["via_file"]["save"] not in world.objs:
             return False
         if k in ("new", "newk"):
             return True
@@ -899,7 +928,9 @@ class C04(Profile):
                 yield ops[:i] + [o2] + ops[i + 1:], config
         # 3. shrink constructor records
         for i, o in enumerate(ops):
-            if o["op"] == "new" and isinstance(o["values"], dict) and "ovalues" in o["values"]:
+            if o["op"] == "new" and o.get("via_file"):
+                pass
+            elif o["op"] == "new" and isinstance(o["values"], dict) and "ovalues" in o["values"]:
                 o2 = dict(o)
                 o2["values"] = {"nd": "f8", "v": [round(0.1 * ((j % 7) - 3), 1) for j in range(16)]}
                 yield ops[:i] + [o2] + ops[i + 1:], config
@@ -1159,6 +1190,21 @@ class OpGen(object):
         if "huge" in sw:
             self._plan_huge(world, cls, sw["huge"]["m"])
             return
+        if "file" in sw:
+            how, mk = sw["file"]["how"], sw["file"]["mk"]
+            self.queue.append(lambda w: self.g_new("S0", cls))
+            for nm, save in (("S1", "S0"), ("S2", None)):
+                self.queue.append(lambda w, nm=nm, save=save: {"op": "new", "p": nm, "cls": cls, "via_file": {"save": save, "how": how},
+                                                                "values": {"nd": "f8", "v": []}, "dt": 0.01, "kw": {}})
+            obs = [x for x in (OBS_ACC if cls == "AccSignal" else OBS_SIG) if x not in ("s_a", "s_v", "s_d")]   # (100 default periods: slow)
+            for who in ("S1", "S2"):
+                rng.shuffle(obs)
+                for x in obs[:rng.randint(3, len(obs))]:
+                    self.queue.append(lambda w, who=who, x=x: {"op": "read", "p": who, "x": x})
+            first = rng.choice(["S1", "S2"])
+            for who in (first, "S2" if first == "S1" else "S1"):
+                self.queue.append(lambda w, who=who: self.g_directed(w, who, mk, want_fault=False))
+            return
         if "k1" in sw:
             k1 = sw["k1"]
             n = rng.randint(9, 40)
@@ -1337,6 +1383,13 @@ class OpGen(object):
                 cls = "AccSignal" if rng.random() < cfg["acc_bias"] else "Signal"
             nm = "S%d" % i
             names.append(nm)
+            if i >= 1 and not directed and rng.random() < 0.15:
+                how = rng.choice(["load_signal:acc_sig", "load_signal:signal", "load_asig", "load_sig"])
+                vcls = "AccSignal" if how in ("load_signal:acc_sig", "load_asig") else "Signal"
+                vf = {"save": "S0" if i == 1 or rng.random() < 0.3 else None, "how": how}
+                self.queue.append(lambda w, nm=nm, vcls=vcls, vf=vf: {"op": "new", "p": nm, "cls": vcls, "via_file": dict(vf),
+                                                                        "values": {"nd": "f8", "v": []}, "dt": 0.01, "kw": {}})
+                continue
             self.queue.append(lambda w, nm=nm, cls=cls: self.g_new(nm, cls))
         want_cluster = cfg["cluster"] or (directed and cell[2].startswith("kop:"))
         if want_cluster:
